@@ -152,6 +152,22 @@ CLAIMED = {
          "e0. Tied to the real code by exact-rational correspondence (23 ops; 1 qubit / qutrit / 2 qubits, two basis families). CP of exp(L), the "
          "Matrix.exp limit and K-PSD <=> CP are checked per run on the implementation, not proved.",
     design="§4 C18, §9", technique="Lean 4 proof over a star-field model + exact-rational correspondence + GKSL oracle"),
+ "C06": dict(
+    text="Proved in Lean 4 for all dims / outcome counts / chain lengths about an executable model of the whole compose_qoperations dispatch: "
+         "Heisenberg duality and POVM o MProcess layout, Born and m-process probabilities sum to 1 for identity-sum / TP inputs, p_x = <to_povm(M)_x, rho>, "
+         "normalised post states and (earlier, later) ensemble layout in the no-truncation regime (partial), TP o TP and identity-sum preservation, "
+         "generalised associativity of instrument chains for the corrected MProcess o MProcess, exact associativity of the M.G.rho, P.G.rho, P.M.G triples, "
+         "the mode-2 round trip; proved negation witnesses for the open findings. Not proved: Born non-negativity, CP of compositions, back-action modes "
+         "0/1 through sqrtm/eigh. Tied to the real code by a differential correspondence over ALL bracketings of structured chains (length 2-5, different "
+         "outcome counts) and a node-by-node Kraus-level numpy oracle.",
+    design="§4 C06, §9", technique="Lean 4 proof over an inductive QOp model of the dispatch + correspondence over all bracketings + Kraus-level oracle"),
+ "C07": dict(
+    text="Proved in Lean 4 for all sizes: K(a,b)(u x v) = v x u; the HS vec-permutation pipeline = Kronecker product; mixed-product action; the "
+         "single-swap lemma; bubble-sort termination and sortedness of the final order for any number of subsystems; the product-size version never raises "
+         "and sorts for any k; coded = product sizes for <= 3 subsystems; product statistics factorise. Finite decide-tables (labelled as such) for four "
+         "subsystems and for the embedding block structure of 1-2 qutrits. Partial: the unbounded semantic loop invariant and embedding physicality are at "
+         "oracle level. Tied to the code by a differential correspondence over every permutation and grouping and a numpy Kronecker / isometry oracle.",
+    design="§4 C07, §9", technique="Lean 4 proof over run-time-sized matrix model of the permutation code + correspondence over all orders/groupings + Kronecker oracle"),
 }
 PENDING_REASON = "check not built yet in this round (build order in DESIGN.md §8); not claimed until its Lean model, theorems and correspondence exist"
 
